@@ -13,6 +13,8 @@ for d in sorted(glob.glob(os.path.join(V, "seeded", "*"))):
         x = r.get(t)
         if not x:
             return "not run"
+        if x.get("applies") is False:
+            return "no longer applies (the code it changed was repaired since)"
         if x["demo_changed_rc"] == 0 or x["demo_clean_rc"] != 0 or "missing 0" not in x["baseline"]:
             return "not confirmed"
         if x["violation_lines"] > 0:
@@ -22,11 +24,20 @@ for d in sorted(glob.glob(os.path.join(V, "seeded", "*"))):
     summ = (m.get("summary") or "").replace("|", "/").replace("\n", " ")
     if len(summ) > 230:
         summ = summ[:227] + "..."
-    others = [k.split("@")[1] for k in r if "@" in k and r[k]["violation_lines"] > 0]
-    if others:
-        m["note"] = (m.get("note", "") + " Caught by the check of " + ", ".join(sorted(set(others))) + ".").strip()
-    rows.append(f"| {os.path.basename(d)} | {m['property']} | {', '.join(files)} | {summ} | {verdict('quick')} | {verdict('thorough') if 'thorough' in r else '-'} | {m.get('note', '')} |")
-table = ("| id | property | file(s) | change | quick tier | thorough tier | note |\n|---|---|---|---|---|---|---|\n" + "\n".join(rows))
+    others = sorted({k.split("@")[1] for k in r if "@" in k and r[k].get("violation_lines", 0) > 0})
+    rows.append(f"| {os.path.basename(d)} | {m['property']} | {', '.join(files)} | {summ} | {verdict('quick') + ((" by its own check; caught by the check of " + ", ".join(others)) if others and verdict('quick') == "MISSED" else "")} | {verdict('thorough') if 'thorough' in r else '-'} | {m.get('note', '')} |")
+def cls(row):
+    q = row.split("|")[5].strip()
+    return ("caught" if q.startswith("caught") else "cross" if "caught by the check of" in q else "missed" if q.startswith("MISSED")
+            else "stale" if q.startswith("no longer") else "other")
+counts = {}
+for row in rows:
+    counts[cls(row)] = counts.get(cls(row), 0) + 1
+summary = (f"Totals on the current HEAD: {len(rows)} seeded changes; {counts.get('caught', 0)} caught by the check of their own property, "
+           f"{counts.get('cross', 0)} missed by it but caught by the check of the property whose mechanism they really break, "
+           f"{counts.get('missed', 0)} caught by no check, {counts.get('stale', 0)} no longer apply because the code they changed was repaired since, "
+           f"{counts.get('other', 0)} not confirmed (the demonstration no longer fails on the current HEAD).\n\n")
+table = summary + ("| id | property | file(s) | change | quick tier | thorough tier | note |\n|---|---|---|---|---|---|---|\n" + "\n".join(rows))
 p = os.path.join(V, "DESIGN.md")
 s = open(p).read()
 a, b = "<!-- SEEDED-TABLE-BEGIN -->", "<!-- SEEDED-TABLE-END -->"
